@@ -12,6 +12,9 @@ import re, collections
 import ir, lex
 
 class TableError(Exception): pass
+class TableDefect(Exception):
+    """the generated scanner itself would index one of its tables out of range (undefined behaviour in C): a property
+    violation, not a modelling problem"""
 
 def int_array(mod, name):
     g = mod.globals.get(name)
@@ -90,14 +93,22 @@ class TableDFA:
     def _cls(s, byte):
         if byte == 0 and s.n_nultrans is None and s.defs.get('YY_NUL_EC') is not None: return s.defs['YY_NUL_EC']
         return s.ec[byte] if s.ec is not None else byte
+    def _idx(s, cur, c):
+        if not 0 <= cur < len(s.base): raise TableDefect('state number %d is outside yy_base[0..%d]' % (cur, len(s.base) - 1))
+        i = s.base[cur] + c
+        if not 0 <= i < len(s.chk) or i >= len(s.nxt):
+            raise TableDefect('yy_base[%d] + %d = %d is outside yy_chk/yy_nxt[0..%d] (yy_base[%d] is %d as stored in its declared element type)' % (cur, c, i, len(s.chk) - 1, cur, s.base[cur]))
+        return i
     def _step_compressed(s, st, byte):
         c = s._cls(byte); cur = st; guard = 0
-        while s.chk[s.base[cur] + c] != cur:
+        while s.chk[s._idx(cur, c)] != cur:
+            if not 0 <= cur < len(s.deflt): raise TableDefect('state number %d is outside yy_def' % cur)
             cur = s.deflt[cur]; guard += 1
-            if guard > 100000: raise TableError('default chain does not terminate from state %d' % st)
+            if guard > 100000: raise TableDefect('the default chain from state %d never reaches a state with a transition (the match loop does not terminate)' % st)
             if cur >= s.jamstate + 1 and s.meta is not None:
+                if not 0 <= c < len(s.meta): raise TableDefect('class %d is outside yy_meta' % c)
                 c = s.meta[c]
-        n = s.nxt[s.base[cur] + c]
+        n = s.nxt[s._idx(cur, c)]
         return None if n == s.jamstate or n == 0 else n
     # ---- full
     def _init_full(s):
@@ -112,7 +123,9 @@ class TableDFA:
         if byte == 0 and s.nultrans is not None:
             n = s.nultrans[st]
             return n if n > 0 else None
-        n = s.full[st][s._cls(byte)]
+        c = s._cls(byte)
+        if not 0 <= st < s.rows or not 0 <= c < s.cols: raise TableDefect('yy_nxt[%d][%d] is outside the %d x %d table' % (st, c, s.rows, s.cols))
+        n = s.full[st][c]
         return n if n > 0 else None
     # ---- fast
     def _init_fast(s):
@@ -148,7 +161,7 @@ class TableDFA:
             raise TableError('fast tables with a yy_NUL_trans table are not modelled')
         c = s._cls(byte)
         k = st + c
-        if k < 0 or k >= len(s.trans): return None
+        if k < 0 or k >= len(s.trans): raise TableDefect('yy_transition[%d] is outside the table of %d entries' % (k, len(s.trans)))
         ver, nx = s.trans[k]
         if ver != c: return None
         return st + nx
@@ -234,7 +247,13 @@ def compare(tdfa, spec, sc_names, variable_trailing=False, limit=400000):
                         if len(out) > 20: return out, explored
                         continue
                 for byte in range(256):
-                    nt = tdfa.step(ts, byte) if ts is not None else None
+                    try: nt = tdfa.step(ts, byte) if ts is not None else None
+                    except TableDefect as e:
+                        w = [byte]; x = st
+                        while seen[x] is not None: x, c = seen[x]; w.append(c)
+                        out.append((sc, bol, bytes(reversed(w)), 'undefined behaviour: %s' % e, 'a defined transition'))
+                        if len(out) > 20: return out, explored
+                        nt = None
                     nr = ref.step(rs, byte) if rs is not None else None
                     if nt is None and nr is None: continue
                     ns = (nt, nr)
@@ -245,12 +264,14 @@ def compare(tdfa, spec, sc_names, variable_trailing=False, limit=400000):
 # ------------------------------------------------------------------ driver shared by C01.R7 and C02.R5
 
 _results = {}
-def language_results(ctx):
-    """{variant name: (probe, table kind, reject?, disagreements, product states)} for the language probes"""
+def language_results(ctx, probes=None):
+    """{variant name: (probe, table kind, reject?, disagreements, product states)} for the language probes (only the named
+    probes when `probes` is given)"""
     import variants, tbl_probes
-    key = (ctx.art.dir, ctx.tier)
+    key = (ctx.art.dir, ctx.tier, tuple(sorted(probes)) if probes is not None else None)
     if key in _results: return _results[key]
-    vs = tbl_probes.language_variants(ctx.tier == 'thorough')
+    vs = tbl_probes.language_variants(ctx.tier == 'thorough', ctx.art)
+    if probes is not None: vs = [v for v in vs if v.name.split('_')[1] in probes]
     variants.instantiate(ctx.art, vs, 'lang')
     out = {}
     for v in vs:
@@ -262,7 +283,7 @@ def language_results(ctx):
         sp = lex.parse_spec(v.spec())
         try:
             t = TableDFA(v, variants.module(v))
-            dis, n = compare(t, sp, sp.sc_order)
+            dis, n = compare(t, sp, sp.sc_order, limit=3000000)
             out[v.name] = (probe, t.kind, rej, dis, n, v)
         except TableError as e:
             out[v.name] = (probe, None, rej, 'table model: %s' % e, 0, v)
@@ -273,7 +294,7 @@ def rule_language(ctx, rule, probes=None, what='language and rule priority'):
     """C01.R7: the emitted tables denote, for every start condition and beginning-of-line state and over ALL byte strings,
     the same accepted rules as the reference automaton built from the rule text by the E3 model."""
     rep = ctx.rep
-    res = language_results(ctx)
+    res = language_results(ctx, probes)
     states = 0
     for name, (probe, kind, rej, dis, n, v) in sorted(res.items()):
         if probes is not None and probe not in probes: continue
